@@ -360,10 +360,64 @@ func genC18(seed uint64, i int, tier string) *Scenario {
 		}
 		pc.AndWord = r.Chance(0.3)
 	}
+	if !pc.False && tier != "thorough" && r.Chance(0.01) {
+		// a long chain of opaque conjuncts around the pinning ones (the parse tree is
+		// then hundreds of levels deep on one side)
+		n := pick(r, []int{20, 70, 130, 300})
+		parts := make([]string, n)
+		for j := range parts {
+			parts[j] = pick(r, []string{"value != 'q'", "strlen(value) < 9", "value != 'w'", "!(value = 'zz')"})
+		}
+		pc.Opaque = strings.Join(parts, pick(r, []string{" & ", " and "}))
+		pc.OpaqueFst = r.Bool()
+	}
 	pc.Fields = pick(r, []string{"*", "key", "key, value", "key, int(value) as n"})
 	pc.Delete = r.Chance(0.15)
 	mode := genMode(r)
 	sc := &Scenario{Cfg: Config{Batch: pickBatch(r), Cache: r.Bool(), Alias: r.Chance(0.3), Lazy: r.Chance(0.3)}, Init: c18Store(r), K: &pc}
+	for i := range pc.Atoms {
+		if len(pc.Atoms[i].Lits) > 4 && r.Bool() {
+			// long key lists meet large batch sizes
+			sc.Cfg.Batch = pick(r, []int{64, 128, 129, 256, 1000})
+		}
+	}
+	if tier != "thorough" && r.Chance(0.08) {
+		// byte-level alphabets: keys and literals are byte strings, not text; the
+		// order-preserving relabelling keeps every region relation of the case
+		ab := pick(r, [][3]string{{"a", "b", "\xff"}, {"\x00", "a", "\xff"}, {"\x7f", "\x80", "\xff"}, {"a", "\xfe", "\xff"},
+			{"\x00", "\x01", "\x02"}, {"A", "a", "~"}, {"\xc3", "\xe9", "\xff"}, {"a", "b", "\xc3\xa9"}})
+		re := func(t string) string {
+			var b strings.Builder
+			for j := 0; j < len(t); j++ {
+				switch t[j] {
+				case 'a':
+					b.WriteString(ab[0])
+				case 'b':
+					b.WriteString(ab[1])
+				case 'c':
+					b.WriteString(ab[2])
+				default:
+					b.WriteByte(t[j])
+				}
+			}
+			return b.String()
+		}
+		for i := range pc.Atoms {
+			for j := range pc.Atoms[i].Lits {
+				pc.Atoms[i].Lits[j] = re(pc.Atoms[i].Lits[j])
+			}
+		}
+		seen := map[string]bool{}
+		var init []KV
+		for _, kv := range sc.Init {
+			if k := re(kv.K); !seen[k] {
+				seen[k] = true
+				init = append(init, KV{k, kv.V})
+			}
+		}
+		sort.Slice(init, func(x, y int) bool { return init[x].K < init[y].K })
+		sc.Init = init
+	}
 	stmts := []Stmt{}
 	if r.Chance(0.3) {
 		// part of the store is built by the engine's own PUT
